@@ -25,6 +25,7 @@ let hex_of_bytes l =
 let opt_of_tok s = if s = "~" then None else Some (bytes_of_hex s)
 let tok_of_opt = function None -> "~" | Some l -> hex_of_bytes l
 let split_ws s = List.filter (fun x -> x <> "") (String.split_on_char ' ' s)
-let z_to_string z = string_of_int (int_of_z z)
+let rec int64_of_pos = function XH -> 1L | XO p -> Int64.mul 2L (int64_of_pos p) | XI p -> Int64.add (Int64.mul 2L (int64_of_pos p)) 1L
+let z_to_string = function Z0 -> "0" | Zpos p -> Int64.to_string (int64_of_pos p) | Zneg p -> "-" ^ Int64.to_string (int64_of_pos p)
 let iter_lines f =
   try while true do f (input_line stdin) done with End_of_file -> ()
